@@ -502,3 +502,111 @@ func ruleC08InterfaceNil(p *Prog, a *Anchors, r *Report) {
 		r.Bad("(*Value).Interface:nil-only-when-invalid", p.InstrPos(at), "Value.Interface() answers nil on a path that is not the !IsValid() edge of its reflect.Value: a typed nil pointer comes out as the untyped nil — handed to func(fmt.Stringer) it is the nil interface, handed to func(*T) the call is refused with \"(not <nil>)\"")
 	}
 }
+
+// ruleC01DerefBound (R-C01-LOOPS family, reported under R-C01-DEREFBOUND): "never loops forever". A loop that follows
+// pointers and interfaces with Elem() until it reaches something else terminates only if the chain does: Go lets a
+// pointer lead back to itself (`var x any; x = &x`, `type P *P`), and the loop then spins without allocating — no
+// limit ends it. Every such loop counts its steps and leaves at a constant bound.
+func ruleC01DerefBound(p *Prog, a *Anchors, r *Report) {
+	r.Begin("R-C01-DEREFBOUND", "a loop that follows pointers/interfaces by Elem() counts its steps and leaves at a constant bound: a pointer that leads back to itself does not make the engine spin forever", 1)
+	reach := a.ExecReach()
+	n := 0
+	for _, f := range p.inPkgFuncsSorted(p.allFuncSet()) {
+		if !reach[f] && !reach[topLevel(f)] {
+			continue
+		}
+		for _, b := range f.Blocks {
+			for _, in := range b.Instrs {
+				call, ok := in.(*ssa.Call)
+				if !ok || call.Common().StaticCallee() == nil || p.extName(call.Common().StaticCallee()) != "(reflect.Value).Elem" {
+					continue
+				}
+				hdr := innermostLoopHeader(b)
+				if hdr == nil {
+					continue
+				}
+				// the result goes back to where the receiver came from (a phi of the loop, or a local cell)
+				recv := call.Common().Args[0]
+				back := false
+				if phi, isPhi := recv.(*ssa.Phi); isPhi {
+					for _, e := range phi.Edges {
+						if e == ssa.Value(call) {
+							back = true
+						}
+					}
+				}
+				if cell := cellOf(recv); cell != "" {
+					for _, u := range refs(call) {
+						if st, isSt := u.(*ssa.Store); isSt && st.Val == ssa.Value(call) && cellOf2(st.Addr) == cell {
+							back = true
+						}
+					}
+				}
+				if !back {
+					continue
+				}
+				n++
+				key := p.FuncName(topLevel(f)) + ":elem-loop"
+				if n > 1 {
+					key += "#" + itoa(int64(n))
+				}
+				// a counter: an int phi of the loop header stepped by +k inside the loop (or a cell), compared with a constant
+				bounded := false
+				for _, lb := range f.Blocks {
+					if !hdr.Dominates(lb) || !ReachableBlocks(lb)[hdr] {
+						continue
+					}
+					iff, isIf := lb.Instrs[len(lb.Instrs)-1].(*ssa.If)
+					if !isIf {
+						continue
+					}
+					c, _ := normCond(iff.Cond, true)
+					bo, isBo := c.(*ssa.BinOp)
+					if !isBo {
+						continue
+					}
+					for _, pr := range [][2]ssa.Value{{bo.X, bo.Y}, {bo.Y, bo.X}} {
+						if _, isK := constInt(pr[1]); !isK || !isIntType(pr[0].Type()) {
+							continue
+						}
+						v := pr[0]
+						if add, isAdd := v.(*ssa.BinOp); isAdd && add.Op == token.ADD {
+							v = add.X
+						}
+						if phi, isPhi := v.(*ssa.Phi); isPhi && phi.Block() == hdr {
+							for _, e := range phi.Edges {
+								if add, isAdd := e.(*ssa.BinOp); isAdd && add.Op == token.ADD && add.X == ssa.Value(phi) {
+									bounded = true
+								}
+							}
+						}
+						if cell := cellOf(v); cell != "" {
+							bounded = true
+						}
+					}
+					// one of the edges leaves the loop
+					leaves := false
+					for _, s := range lb.Succs {
+						if !hdr.Dominates(s) || !ReachableBlocks(s)[hdr] {
+							leaves = true
+						}
+					}
+					if bounded && !leaves {
+						bounded = false
+					}
+					if bounded {
+						break
+					}
+				}
+				if bounded {
+					r.OK(key, p.InstrPos(in), "the loop counts its steps against a constant")
+				} else {
+					r.Bad(key, p.InstrPos(in), "%s follows pointers and interfaces with Elem() for as long as there are any: a pointer that leads back to itself (`var x any; x = &x` in the context) makes {{ x.name }} spin forever at full CPU — no allocation, no stack growth, nothing ends it", p.FuncName(f))
+				}
+			}
+		}
+	}
+	if n == 0 {
+		r.Unk("none", "-", "no pointer-following loop found")
+	}
+}
